@@ -54,6 +54,7 @@ const raceStaticMacs = 4
 type raceReq struct {
 	rxIf    int  // receive interface index given to the server
 	pinned  bool // the reply must be pinned to rxIf (link-local peer / broadcast)
+	unanswered bool // a datagram of a kind the server never answers
 	v6      bool
 	xid     uint32
 	mac     []byte // chaddr (v4) / DUID-LL address (v6)
@@ -94,6 +95,35 @@ func (raceEngine) Run(ctx *fw.Ctx, cs any) {
 		for j := 0; j < k; j++ {
 			xid++
 			r := &raceReq{v6: rng.Intn(2) == 0, xid: xid & 0xffffff, burst: b}
+			if rng.Intn(6) == 0 {
+				// datagrams the server does not answer (RELEASE/DECLINE/INFORM, BOOTREPLY, other DHCPv6
+				// types, truncated): they take the early-return paths, which also handle the pooled buffer
+				var d []byte
+				if r.v6 {
+					d = pkt.Msg6([]byte{9, 10, 2, 7, 200}[rng.Intn(5)], r.xid, []pkt.Opt6{pkt.O6(pkt.OptClientID6, pkt.DUIDLL(dynMac(9000+j)))})
+					if rng.Intn(4) == 0 {
+						d = d[:rng.Intn(len(d))]
+					}
+				} else {
+					p := pkt.Request4(r.xid, dynMac(9000+j), []byte{7, 4, 8, 2, 5}[rng.Intn(5)], pkt.O4(61, 1, 9, 9, 9, 9, 9, byte(j)))
+					if rng.Intn(4) == 0 {
+						p.Op = 2
+					}
+					p.Gi = pkt.IP4("10.9.9.9")
+					d = p.Bytes()
+					if rng.Intn(5) == 0 {
+						d = d[:rng.Intn(len(d))]
+					}
+				}
+				r.unanswered = true
+				reqs = append(reqs, r)
+				cr := ChainReq{V6: r.v6, Hex: hex.EncodeToString(d), RxIf: fakeIf, Peer: "10.9.9.9", Port: 67, Async: true}
+				if r.v6 {
+					cr.Peer, cr.Port = "2001:db8:ffff::99", 546
+				}
+				job.Reqs = append(job.Reqs, cr)
+				continue
+			}
 			switch {
 			case rng.Intn(4) == 0: // static client
 				r.static, r.macIdx = true, rng.Intn(raceStaticMacs)
@@ -322,6 +352,16 @@ func (raceEngine) Run(ctx *fw.Ctx, cs any) {
 			}
 			if sig, msg := lease.Judge(clientKey(rq.mac), true, net.IP(m.Yi[:])); sig != "" && sig != "served-beyond-capacity" {
 				ctx.Viol("C16", "lease:"+sig, "%s: %s", desc, msg)
+			}
+		}
+		for _, rq := range burstReqs {
+			if rq.unanswered {
+				ctx.Count("race.unanswerable_datagrams", 1)
+				if answered[key{rq.v6, rq.xid}] > 0 {
+					for _, pr := range []string{"C16", "C11"} {
+						ctx.Viol(pr, "unanswerable-datagram-answered", "%s: a datagram the server never answers (xid %#x, v6=%v) was answered during a concurrent burst", desc, rq.xid, rq.v6)
+					}
+				}
 			}
 		}
 		for k, n := range answered {
